@@ -19,6 +19,8 @@ EXC = {
     "read_timeout": httpcore.ReadTimeout,
     "write_error": httpcore.WriteError,
     "write_timeout": httpcore.WriteTimeout,
+    # a failure that is neither a connect error nor a connect time-out
+    "other": httpcore.ReadError,
 }
 
 
